@@ -12,7 +12,14 @@ package http2
 // representation invariant c17 states below) and B (VerifC17_history: real initial state, SETTINGS + opens + waiters
 // under the symbolic scheduler).
 //
+// Shape I also for SETTINGS (VerifC17_settingsStep: one arbitrary SETTINGS frame from an arbitrary pre-state, then one
+// admission against the limit the specification leaves in force).
+//
 // Sensitivity (mut.sh, each caught as VIOLATION and confirmed natively):
+//   transport.go processSettingsNoWrite: default-limit fallback hoisted out of `if !cc.seenSettings` (seed C17-C: every
+//   SETTINGS frame without MAX_CONCURRENT_STREAMS resets the limit to 1000)
+//       -> VerifC17_settingsStep "limit in force after SETTINGS", VerifC17_history "admission respects the limit in
+//          force", VerifC17_lifecycle "connection at its limit does not take new requests" (all quick tier)
 //   transport.go currentRequestCountLocked: drop `+ cc.pendingResets`           -> VerifC17_openStep "opened only below the limit"
 //   transport.go awaitOpenSlotForStreamLocked: `<`→`<=` on the limit test       -> VerifC17_openStep
 //   transport.go addStreamLocked: `cc.nextStreamID += 2`→`+= 1`                 -> VerifC17_openStep "next stream ID advanced by 2"
@@ -28,6 +35,7 @@ func init() {
 	vfRegister("VerifC17_reserveStep", VerifC17_reserveStep)
 	vfRegister("VerifC17_history", VerifC17_history)
 	vfRegister("VerifC17_pool", VerifC17_pool)
+	vfRegister("VerifC17_settingsStep", VerifC17_settingsStep)
 }
 
 type c17pre struct {
@@ -115,6 +123,13 @@ func (p *c17pre) usableConn() bool {
 
 func VerifC17_openStep() {
 	p := c17state(3 + 2*vfTier())
+	c17openStep(p, p.max)
+}
+
+// c17openStep runs the admission critical section once on the connection of p and checks it against `limit`, the
+// server's SETTINGS_MAX_CONCURRENT_STREAMS in force according to the SPECIFICATION (for VerifC17_openStep that is the
+// pre-state's arbitrary value; for VerifC17_settingsStep it is what the SETTINGS frame just processed leaves in force).
+func c17openStep(p *c17pre, limit uint32) {
 	cc := p.h.cc
 	cs := h2cNewStream(cc)
 	var err error
@@ -132,7 +147,7 @@ func VerifC17_openStep() {
 	})
 	reserved1 := vfIteInt(p.reserved > 0, p.reserved-1, p.reserved) // the request's own reservation is returned first
 	count := int64(p.n) + int64(reserved1) + int64(p.pendingResets)
-	below := count < int64(p.max)
+	below := count < int64(limit)
 	usable := p.usable()
 
 	if blocked {
@@ -166,8 +181,8 @@ func VerifC17_openStep() {
 		vfAssert(cc.nextStreamID <= math.MaxInt32, "Inv: nextStreamID <= 2^31-1")
 		vfAssert(len(cc.streams) == p.n+1, "exactly one stream added")
 		vfAssert(cc.streams[cs.ID] == cs, "stream registered under its ID")
-		vfAssert(int64(cc.currentRequestCountLocked()) <= int64(p.max), "open streams + reservations + unconfirmed resets <= MAX_CONCURRENT_STREAMS")
-		vfAssert(int64(len(cc.streams)) <= int64(p.max), "open streams <= MAX_CONCURRENT_STREAMS")
+		vfAssert(int64(cc.currentRequestCountLocked()) <= int64(limit), "open streams + reservations + unconfirmed resets <= MAX_CONCURRENT_STREAMS")
+		vfAssert(int64(len(cc.streams)) <= int64(limit), "open streams <= MAX_CONCURRENT_STREAMS")
 		vfObserve("id", uint64(cs.ID))
 	} else {
 		vfReach("refused")
@@ -188,6 +203,100 @@ func VerifC17_openStep() {
 	// progress: a usable connection below its limit admits the request
 	vfAssert(vfImplies(vfAnd(usable, below), err == nil), "usable connection below its limit opens the stream")
 	vfReach("end")
+}
+
+// One SETTINGS frame from an arbitrary pre-state (shape I), then one admission: which limit is in force afterwards?
+//
+// Specification (RFC 9113 §6.5, §6.5.2, §6.5.3): a SETTINGS parameter keeps its value until a later SETTINGS frame
+// carries that parameter again; parameters a frame does not mention are unchanged; the parameters of one frame are
+// processed in order (the last occurrence wins); an ACK carries nothing. SETTINGS_MAX_CONCURRENT_STREAMS is initially
+// unlimited: until the server has said something, the client uses its own documented stand-ins
+// (initialMaxConcurrentStreams before the first SETTINGS frame, defaultMaxConcurrentStreams once the first frame
+// arrived without the parameter). So for a frame the connection accepts:
+//
+//	limit' = value of the last MAX_CONCURRENT_STREAMS entry                    if the frame has one
+//	       = defaultMaxConcurrentStreams                                       if it has none and is the server's FIRST frame
+//	       = limit (unchanged, whatever the server advertised earlier)         otherwise
+//
+// The frame has 0..2 (thorough 0..3) entries with arbitrary 32-bit values, or is an ACK; seenSettings/wantSettingsAck
+// arbitrary. Frames of 0..1 (thorough 0..2) entries have arbitrary 16-bit IDs (every known parameter, unknown ones,
+// invalid values); the longest frames draw their IDs from {MAX_CONCURRENT_STREAMS, INITIAL_WINDOW_SIZE,
+// MAX_HEADER_LIST_SIZE} (all orders, duplicates included).
+// After the frame, the pool-facing predicates and one real admission are checked against limit' (c17openStep): a
+// request is opened only below limit', waits (strict) / is not chosen (non-strict) at limit'.
+func VerifC17_settingsStep() {
+	p := c17state(1 + vfTier())
+	cc := p.h.cc
+	// the connection is otherwise usable or closed (all other unusable states: VerifC17_openStep / VerifC17_reserveStep)
+	vfAssume(vfNot(vfOr(p.closing, vfOr(p.doNotReuse, vfOr(p.singleUse, vfOr(p.closedOnIdle, p.goAway))))))
+	seen := vfBool("seenSettings")
+	if vfConcretizeBool(seen) {
+		cc.seenSettings = true
+		close(cc.seenSettingsChan)
+	}
+	cc.wantSettingsAck = vfBool("wantSettingsAck")
+	// the limit in force after the frame, per the specification above
+	limit := p.max
+	var ss []Setting
+	ack := vfBool("ack")
+	var f *SettingsFrame
+	if vfConcretizeBool(ack) {
+		f = h2cSettingsFrame()
+		f.FrameHeader.Flags = FlagSettingsAck
+	} else {
+		n := vfLen("nsettings", 0, 2+vfTier())
+		wide := 1 + vfTier() // frames of up to `wide` entries have arbitrary IDs; longer ones draw from the three below
+		has := false // fork-free: does the frame carry MAX_CONCURRENT_STREAMS, and the last such value
+		var last uint32
+		for i := 0; i < n; i++ {
+			id, val := SettingID(vfU16("settingID")), vfU32("settingVal")
+			if n > wide {
+				vfAssume(vfOr(id == SettingMaxConcurrentStreams, vfOr(id == SettingInitialWindowSize, id == SettingMaxHeaderListSize)))
+			}
+			ss = append(ss, Setting{id, val})
+			isMCS := id == SettingMaxConcurrentStreams
+			has = vfOr(has, isMCS)
+			last = vfIteU32(isMCS, val, last)
+		}
+		f = h2cSettingsFrame(ss...)
+		limit = vfIteU32(has, last, vfIteU32(seen, p.max, defaultMaxConcurrentStreams))
+	}
+	err := p.h.rl.processSettingsNoWrite(f)
+	if err != nil {
+		// the frame is a connection error (invalid value, unexpected ACK): the read loop tears the connection down
+		vfReach("settings-rejected")
+		if ack {
+			vfAssert(cc.maxConcurrentStreams == p.max, "rejected ACK leaves the limit alone")
+		}
+		vfReach("end")
+		return
+	}
+	vfReach("settings-accepted")
+	if ack {
+		vfReach("ack")
+		vfAssert(cc.seenSettings == seen, "an ACK is not the server's SETTINGS frame")
+	} else {
+		vfAssert(cc.seenSettings, "seenSettings after the server's SETTINGS frame")
+		if seen {
+			vfReach("later-frame")
+		} else {
+			vfReach("first-frame")
+		}
+	}
+	vfObserve("limit", uint64(cc.maxConcurrentStreams))
+	vfAssert(cc.maxConcurrentStreams == limit, "limit in force after SETTINGS: last MAX_CONCURRENT_STREAMS of the frame, else unchanged (default after a first frame without it)")
+	vfAssert(len(cc.streams) == p.n && cc.nextStreamID == p.next, "SETTINGS opens/closes nothing")
+	vfAssert(cc.streamsReserved == p.reserved && cc.pendingResets == p.pendingResets, "SETTINGS leaves the slot counters alone")
+
+	// the pool's view against the specification's limit (statement, second half)
+	count := int64(p.n) + int64(p.reserved) + int64(p.pendingResets)
+	below := count < int64(limit)
+	special := vfAnd(vfAnd(p.next == 1, p.reserved == 0), vfAnd(p.closed, vfNot(p.closedOnIdle)))
+	can := cc.CanTakeNewRequest()
+	vfAssert(can == vfOr(special, vfAnd(p.usable(), vfOr(p.strict, below))), "after SETTINGS: chosen iff usable and (strict or below the limit in force)")
+	vfAssert(vfImplies(vfAnd(vfNot(p.strict), vfAnd(vfNot(below), vfNot(special))), !can), "after SETTINGS: non-strict connection at its limit is not chosen")
+	// and one real admission against it (statement, first half)
+	c17openStep(p, limit)
 }
 
 // ReserveNewRequest (what the connection pool calls to choose a connection), CanTakeNewRequest, canReserveLocked,
@@ -276,6 +385,29 @@ func VerifC17_history() {
 		vfAssert(false, "initial SETTINGS accepted")
 	}
 	vfAssert(cc.maxConcurrentStreams == uint32(m), "limit taken from SETTINGS")
+	limit := uint32(m) // ghost: the server's SETTINGS_MAX_CONCURRENT_STREAMS in force (changed only by a frame that carries it)
+	// a later SETTINGS frame that does not mention MAX_CONCURRENT_STREAMS (empty, or one other parameter with an
+	// arbitrary valid value): the advertised limit stays in force. Delivered at one of three points of the history.
+	quietAt := vfChoice("quiet-settings-at", 4) // 0 never | 1 before the requests | 2 after the limit change | 3 while the waiter is parked
+	quiet := func(at int) {
+		if quietAt != at {
+			return
+		}
+		vfReach("quiet-settings")
+		var ss []Setting
+		switch vfChoice("quiet-kind", 3) {
+		case 0: // empty frame
+		case 1:
+			v := vfU32("initialWindowSize")
+			vfAssume(v <= math.MaxInt32)
+			ss = append(ss, Setting{SettingInitialWindowSize, v}) // (this one Broadcasts: a parked waiter re-examines the limit)
+		case 2:
+			ss = append(ss, Setting{SettingMaxHeaderListSize, vfU32("maxHeaderListSize")})
+		}
+		if err := h.rl.processSettingsNoWrite(h2cSettingsFrame(ss...)); err != nil {
+			vfAssert(false, "SETTINGS without MAX_CONCURRENT_STREAMS accepted")
+		}
+	}
 	admit := func(cs *clientStream) error {
 		cc.mu.Lock()
 		defer cc.mu.Unlock()
@@ -285,10 +417,12 @@ func VerifC17_history() {
 		}
 		cc.addStreamLocked(cs)
 		// ghost check at the linearisation point (cc.mu held): the limit in force now is respected
-		vfAssert(uint32(len(cc.streams)+cc.pendingResets+cc.streamsReserved) <= cc.maxConcurrentStreams, "admission respects the limit in force")
+		vfAssert(uint32(len(cc.streams)+cc.pendingResets+cc.streamsReserved) <= limit, "admission respects the limit in force")
+		vfAssert(cc.maxConcurrentStreams == limit, "connection's limit == the server's last advertised MAX_CONCURRENT_STREAMS")
 		return nil
 	}
 	// fill the connection: k streams, of which some were cancelled with an unconfirmed RST_STREAM+PING
+	quiet(1)
 	var open []*clientStream
 	lastID := uint32(0)
 	for i := 0; i < m; i++ {
@@ -318,7 +452,9 @@ func VerifC17_history() {
 		if err := h.rl.processSettingsNoWrite(h2cSettingsFrame(Setting{SettingMaxConcurrentStreams, uint32(newM)})); err != nil {
 			vfAssert(false, "SETTINGS accepted")
 		}
+		limit = uint32(newM)
 	}
+	quiet(2)
 	// one more request: must wait
 	waiter := h2cNewStream(cc)
 	var werr error
@@ -328,6 +464,7 @@ func VerifC17_history() {
 		close(done)
 	})
 	h2cSettle(func() bool { cc.mu.Lock(); defer cc.mu.Unlock(); return cc.pendingRequests == 1 })
+	quiet(3)
 	// events that free slots, in a fixed order, until the waiter can run; the scheduler interleaves the waiter freely
 	if pendingReset {
 		// PING ACK confirms the server is alive: pending resets stop counting
